@@ -47,6 +47,12 @@ func (m *Model) GetPublication(id string, opts ...resource.ReadOption) (*traits.
 func (m *Model) UpdatePublication(id string, publication *traits.Publication, opts ...resource.WriteOption) (*traits.Publication, error) {
 	args := calcWriteArgs(opts...)
 	opts = append([]resource.WriteOption{m.withComputedProperties(args)}, opts...)
+	// The publication is stored under id and listed (and paged) by its Id field: a write must not leave the two
+	// different. The id is a separate argument, so the written message often carries no Id.
+	if publication != nil && publication.Id != id {
+		publication = proto.Clone(publication).(*traits.Publication)
+		publication.Id = id
+	}
 	return toPublication(m.publications.Update(id, publication, opts...))
 }
 
